@@ -229,21 +229,21 @@ def gen_case(rng, tier, idx):
 
 
 # ------------------------------------------------- mechanisms (classification)
-def lib_like_array_values(pats, w):
-    """What the library's expansion yields when it has the two known defects
-    (for the SYMPTOM test only): each pattern is expanded below the most
-    significant set bit of its mask only; the per-pattern runs are sorted by
-    start and merged pairwise, a merge taking the SECOND run's end.
+def lib_like_array_values(pats, w, low_only=True, bad_merge=True):
+    """What the library's expansion yields when it has the known defects (for the
+    SYMPTOM test only).  low_only: each pattern is expanded below the most
+    significant set bit of its mask only (F14a); bad_merge: the per-pattern runs,
+    sorted by start, are merged pairwise taking the SECOND run's end (F29).
     -> (ascending values, high_bits_active, overlap_truncated)"""
     runs = []
     high = False
     for p in pats:
         value, mask, _ = covref.wild_parse(p)
         nb = mask.bit_length()
-        if nb < w:
+        if low_only and nb < w:
             high = True
         cur = None
-        for u in range(1 << nb):
+        for u in range(1 << (nb if low_only else max(nb, w))):
             if (u & mask) == (value & mask):
                 if cur is not None and cur[1] + 1 == u:
                     cur[1] = u
@@ -256,7 +256,10 @@ def lib_like_array_values(pats, w):
     while i < len(runs):
         if i + 1 < len(runs) and runs[i][1] + 1 >= runs[i + 1][0]:
             if runs[i + 1][1] < runs[i][1]:
-                trunc = True
+                if bad_merge:
+                    trunc = True
+                else:
+                    runs[i + 1][1] = runs[i][1]
             runs[i] = [runs[i][0], runs[i + 1][1]]
             runs.pop(i + 1)
         else:
@@ -374,17 +377,25 @@ def exec_case(spec):
             unexplained.append("bin %s=%s: hit by %s..., pattern matches %s..." % (
                 dn, cb._bin_src(b), sorted(got_sets[0])[:12] if got_sets else None, sorted(ref_sets[0])[:12]))
         elif b["k"] == "warray":
-            vals, high, trunc = lib_like_array_values(b["pats"], w)
-            like = covref.partition(vals, b.get("n"))
-            # values outside the type can never be sampled
-            like_t = [frozenset(x for x in s if x in tvset) for s in like]
-            if (high or trunc) and got_sets == like_t:
-                if high:
-                    mechs.add(F_HIGH)
-                    C.inc("explained_" + F_HIGH)
-                if trunc:
-                    mechs.add(F_OVL)
-                    C.inc("explained_" + F_OVL)
+            # smallest set of known mechanisms whose emulation reproduces the library's bins
+            explained = False
+            for low_only, bad_merge in ((True, False), (False, True), (True, True)):
+                vals, high, trunc = lib_like_array_values(b["pats"], w, low_only, bad_merge)
+                if not (high or trunc):
+                    continue
+                like = covref.partition(vals, b.get("n"))
+                # values outside the type can never be sampled
+                like_t = [frozenset(x for x in s if x in tvset) for s in like]
+                if got_sets == like_t:
+                    if high:
+                        mechs.add(F_HIGH)
+                        C.inc("explained_" + F_HIGH)
+                    if trunc:
+                        mechs.add(F_OVL)
+                        C.inc("explained_" + F_OVL)
+                    explained = True
+                    break
+            if explained:
                 continue
             unexplained.append("array %s=%s: %d bins covering %s..., reference %d bins covering %s..." % (
                 dn, cb._bin_src(b), len(got_sets), sorted(set().union(*got_sets))[:16] if got_sets else [],
